@@ -33,14 +33,35 @@ T += [
 for r in T:
     r['h'] = "vm::u2::" + r['h']
 
+# libm arms: delegation contracts (the std function is replaced by a recorder, kani::stub)
+LIBM = [("power_float", "PowerFloat", "powf"), ("power_float_imm", "PowerFloatImm", "powf"), ("atan2", "Atan2", "atan2"), ("ceil", "Ceil", "ceil"),
+        ("floor", "Floor", "floor"), ("round", "Round", "round"), ("square_root", "SquareRoot", "sqrt"), ("sin", "Sin", "sin"), ("cos", "Cos", "cos"),
+        ("tan", "Tan", "tan"), ("asin", "Asin", "asin"), ("acos", "Acos", "acos"), ("atan", "Atan", "atan"), ("log", "Log", "ln"),
+        ("log2", "Log2", "log2"), ("log10", "Log10", "log10")]
+LIBM_ARMS = [a for _, a, _ in LIBM]
+TM = [dict(h="vm::u2m::" + h, id="C16.vm.%s.delegates" % arm, props=["C16", "C01"] + (["C05"] if arm.endswith("Imm") else []), fn="step arm " + arm,
+           text="for all bit patterns of the operands and every value the call may return: the arm never stops, calls f64::%s exactly once on its operands "
+                "in the written order (for the Imm form: the constant-table entry) and stores exactly the returned value; f64::%s itself is trusted std/libm" % (f, f))
+      for h, arm, f in LIBM]
+
 
 def run(tier="quick"):
+    obs, info = _run_main(tier)
+    obs2, info2 = vmk.run_table(UNIT, "u2m", LIBM_ARMS, os.path.join(HERE, "harness_libm.rs"), TM, timeout=400, jobs=4, kani_extra=["--no-overflow-checks"],
+                                extra_info=dict(assumptions=["U2: f64::powf, atan2, ceil, floor, round, sqrt, sin, cos, tan, asin, acos, atan, ln, log2, log10 are trusted (std/libm); "
+                                                             "the delegation obligations replace them by a recorder returning an arbitrary value (kani::stub)"]))
+    for k in ('assumptions', 'trusted_base', 'checker_cmds'):
+        info[k] = list(info.get(k, [])) + [x for x in info2.get(k, []) if x not in info.get(k, [])]
+    return obs + obs2, info
+
+
+def _run_main(tier="quick"):
     return vmk.run_table(UNIT, "u2", ARMS, os.path.join(HERE, "harness.rs"), T, timeout=600, jobs=4,
                          kani_extra=["--no-overflow-checks"],  # Kani's default NaN/float-overflow checks flag legitimate IEEE results (inf - inf)
                          extra_info=dict(assumptions=[
                              "U2: Rust's f64 + - * / are IEEE-754 binary64 operations (hardware/LLVM); CBMC's float model is bit-precise for + - * and comparisons",
                              "U2: Kani run with --no-overflow-checks: its NaN / float-overflow checks reject legitimate IEEE results such as inf - inf = NaN; the arms under test contain no integer arithmetic",
-                             "U2: powf, sqrt, sin..log10, ceil/floor/round arms are NOT verified (CBMC has no model of libm); they call the std function named by the opcode (by inspection)",
+                             "U2: the values of powf, sqrt, sin..log10, ceil/floor/round are NOT verified (CBMC has no model of libm); that the arms delegate to exactly those std functions is (C16.vm.*.delegates)",
                          ]))
 
 
@@ -104,4 +125,21 @@ def replay(ob):
         out, err, rc = abra_cli.run_program(prog)
         if "division by zero" not in (out + err):
             return True, dict(program=prog, operand_form=form, real_output=(out + err)[:300], expected="division by zero runtime error")
-    return None, dict(note="no disagreement on %d operator instances x 2 operand forms on the real CLI" % len(cases))
+    # `^`: no independent oracle for powf; the literal-exponent form (PowerFloatImm) must print what the variable form (PowerFloat) prints
+    bases = ["0.0", "-0.0", "2.0", "-2.0", "0.25", "-0.25", "9.0", "(0.0 - 10.0 ^ 400.0)", "(10.0 ^ 400.0)"]
+    exps = ["0.5", "2.0", "3.0", "0.0", "1.0", "-1.0", "-0.5", "1.5"]
+    lines, pairs = ["fn id(x: float) = x", "fn pw(a: float, b: float) = a ^ b"], []
+    for a in bases:
+        for e in exps:
+            lines.append("println(id(%s) ^ %s)" % (a, e))
+            lines.append("println(pw(id(%s), id(%s)))" % (a, e))
+            pairs.append((a, e))
+    out, err, rc = abra_cli.run_program("\n".join(lines) + "\n", timeout=300)
+    got = out.strip().split("\n")
+    for i, (a, e) in enumerate(pairs):
+        gl = got[2 * i] if 2 * i < len(got) else "<missing: %s>" % err.strip().split("\n")[0][:150]
+        gv = got[2 * i + 1] if 2 * i + 1 < len(got) else "<missing>"
+        if gl != gv:
+            ob.cex = dict(a=a, op="^", b=e)
+            return True, dict(expression="%s ^ %s" % (a, e), literal_exponent_prints=gl, variable_exponent_prints=gv)
+    return None, dict(note="no disagreement on %d operator instances x 2 operand forms on the real CLI" % (len(cases) + len(pairs)))
